@@ -63,9 +63,30 @@ func runEncodeTruncated(t *simrt.Tape, keep bool) simrt.Outcome {
 	out := filepath.Join(dir, "trunc-out.bin")
 	os.WriteFile(in, buf.Bytes()[:cut], 0o644)
 	os.Remove(out)
-	r.log.Addf("from=%s to=%s n=%d complete=%d cut=%d", from, to, n, k, cut)
+	inputs := []string{in}
+	// a second, intact result file next to the cut one (results of another attack, as `encode a b` merges them):
+	// what the half-written record left behind must not leak into its records
+	var other []vegeta.Result
+	if k > 0 && t.Prob(1, 3) {
+		other = genCmdResults(r, 1+t.Choose(8))
+		for i := range other {
+			other[i].Seq += 1000
+		}
+		op := filepath.Join(dir, "trunc-other.bin")
+		if err := writeResults(op, encFormats[t.Choose(3)], other); err != nil {
+			fmt.Println("INFRA:", err)
+			os.Exit(2)
+		}
+		if t.Prob(1, 2) {
+			inputs = []string{op, in}
+		} else {
+			inputs = append(inputs, op)
+		}
+		r.stats["fault.cut-file-next-to-intact-file"]++
+	}
+	r.log.Addf("from=%s to=%s n=%d complete=%d cut=%d other=%d", from, to, n, k, cut, len(other))
 	var err error
-	r.guard("encode command", func() { err = encode([]string{in}, to, out) })
+	r.guard("encode command", func() { err = encode(inputs, to, out) })
 	if r.viol == nil {
 		data, _ := os.ReadFile(out)
 		var got []vegeta.Result
@@ -76,12 +97,26 @@ func runEncodeTruncated(t *simrt.Tape, keep bool) simrt.Outcome {
 		what := fmt.Sprintf("encode -to %s of a %s file of %d records cut at byte %d of %d (%d records complete; encode returned %v)", to, from, n, cut, buf.Len(), k, err)
 		if derr != nil {
 			r.fail("C09.encode-output-torn", nil, "%s: the output does not decode cleanly: %v after %d records", what, derr, len(got))
-		} else if len(got) != k {
-			r.fail("C09.encode-prefix-count", nil, "%s: the output holds %d records", what, len(got))
+		} else if len(got) != k+len(other) {
+			r.fail("C09.encode-prefix-count", nil, "%s: the output holds %d records (an intact file of %d records was given as well)", what, len(got), len(other))
 		} else {
+			// the cut file's records in their order, the other file's in theirs
+			ia, ib := 0, 0
 			for i := range got {
-				if d := simcommon.DiffResults(&rs[i], &got[i]); d != "" {
-					r.fail("C09.encode-prefix-content", nil, "%s: record %d of the output differs: %s", what, i, d)
+				var want *vegeta.Result
+				if got[i].Seq >= 1000 && ib < len(other) {
+					want = &other[ib]
+					ib++
+				} else if ia < k {
+					want = &rs[ia]
+					ia++
+				}
+				if want == nil {
+					r.fail("C09.encode-prefix-content", nil, "%s: record %d of the output (seq %d) is none of the records written", what, i, got[i].Seq)
+					break
+				}
+				if d := simcommon.DiffResults(want, &got[i]); d != "" {
+					r.fail("C09.encode-prefix-content", nil, "%s: record %d of the output differs from what was written: %s", what, i, d)
 					break
 				}
 			}
